@@ -75,6 +75,8 @@ EXTREME = ["A%%=-32767-1:B%%=-1:PRINT A%% %s B%%" % op for op in ("MOD", "\\", "
 EXTREME += ["DIM A(32767,32767,32767,32767):A(32767,0,32767,1)=7:PRINT A(32767,0,32767,1);A(1,1,1,1)", 'DIM B$(32767,32767,32767,32767,32767):B$(0,0,0,0,32767)="OK":PRINT B$(0,0,0,0,32767)',
             "DIM C%(32767,32767):C%(32767,32767)=1:PRINT C%(32767,32767);C%(0,0)", "DIM D#(32767):D#(32767)=2:ERASE D#:DIM D#(32767,32767,32767)"]
 DIRECT = EXTREME + ["RUN", "RUN 20", "LIST", "LIST 10-20", "CONT", "NEW", "RENUM", "RENUM 5,0,0", "RENUM 65529", "DELETE 10", "DELETE 10-", "DELETE",
+                    # ranges written backwards: an error, never a request the ordered map cannot serve
+                    "LIST 20-10", "DELETE 20-10", "LIST 65529-0", "DELETE 30-10", "LIST 20-10:PRINT 1", "10 LIST 30-10",
           "SAVE \"f\"", "LOAD \"f\"", "RUN \"f\"", "CLEAR", "PRINT 1/0", "PRINT -(-32767-1)", "PRINT ABS(-32767-1)", "A$=INKEY$", "INPUT Q", "INPUT Q$,R$",
           "GOTO 10", "GOSUB 10", "RETURN", "NEXT", "WEND", "FOR I=1 TO 1E30", "DIM Z(32767)", "DIM Z(10,10,10,10)", "PRINT STRING$(255,\"x\")+STRING$(255,\"y\")",
           "X$=STRING$(255,\"é\"):PRINT LEN(X$+X$+X$)", "PRINT CHR$(-1)", "PRINT MID$(\"abc\",0)", "PRINT LEFT$(\"é日\",1)", "PRINT VAL(\"1E400\")", "TRON", "TROFF",
